@@ -10,11 +10,17 @@ claimed = {
  "C17": ("other", "Go-side proof that write/read/exists emit the specified templates with the arguments in their positions; what the file system then holds is Bash's doing and is trusted.", "§5 C17"),
 }
 claimed.update({
+ "C06": ("proof", "'accepted implies well-typed' proved by structural induction over the parser: a recursive typing predicate specTyped (Go rules for the shared syntax, README signatures for builtins) is the postcondition of every expression-parsing function (precedence chain, binary/logical/comparison/unary, primary expressions, subscripts, builtins, calls); call arguments and slice literal elements by quantified postconditions (arity and per-position parameter types); operator tables of both converters are proved equal to the same spec tables (error iff not allowed), which is the target-independence half.", "§5 C06"),
+ "C07": ("proof", "Scope placement checks as postconditions (break/continue/return only inside the right construct via a recursive scope-stack predicate, function definitions only at top level, a second function of the same name rejected). The frame part (definitions never escape their block: context clones) is not yet under contract.", "§5 C07"),
+ "C09": ("other", "Partial: alias lookups find nothing for an alias that was never imported; imported top-level statements are never dropped by the duplicate-suppression loop (counting invariant). Call-graph merge/reachability and prefix naming are not yet under contract.", "§5 C09"),
  "C04": ("proof", "Order and multiplicity of evaluation proved on the transpiler: every evaluate* function has ghost event-log postconditions (calls/arg/res/seq) stating that each operand is passed to evaluateExpression exactly once, in source order, with its value used, before the converter call that consumes it; all if/else-if conditions before IfStart; for: init, ForStart, guarded increment, condition, ForCondition, body, ForEnd. Loops are handled with invariants over the log, for any number of operands/branches.", "§5 C04"),
  "C05": ("proof", "Go-side proof for the Batch converter: operator tables (IF comparison words, quoting of string vs numeric operands, doubled %), fresh helpers, routing of lines into function blocks, and the label allocator invariants (no live loop/if/end label equals a label handed out later, live labels pairwise distinct, continue/break/ForEnd target the innermost open loop). cmd.exe's meaning of the templates is trusted.", "§5 C05"),
  "C18": ("other", "Only the transpiler half so far: a call chain leads to exactly one converter AppCall with the value-used flag. The word-level quoting clause on bash.AppCall is not yet under contract.", "§5 C18"),
 })
 notes = {
+ "C06": "Statement-level typing (definitions/assignments/returns/conditions) is not yet under contract; ordering comparison of strings, the argument type of panic and print are unspecified and not demanded. Library models: strconv.Atoi/ParseBool uninterpreted.",
+ "C07": "Map-heap frame conditions for context cloning are pending; see DESIGN.md §5 C07.",
+ "C09": "Trusted: os/filepath/sha256 uninterpreted. Only the two clauses named in the claim are proved.",
  "C04": "Trusted: a helper reference (${_hN}) can be expanded any number of times without effect; the parser's AST keeps one node per source operand (parser-side clause pending); govc; solvers.",
  "C05": "Trusted: cmd.exe semantics (parse-time %, run-time !, label search, IF numeric vs string, call/exit /B, set /A). Pinned helper routine bodies of ProgramEnd are not yet under contract.",
  "C18": "Trusted: Bash word splitting/quoting rules; bash.AppCall and batch.AppCall bodies are only covered by the safety sweep so far.",
